@@ -34,7 +34,8 @@ RANGES = [(533, 538), (616, 642), (717, 730), (738, 745), (431, 436), (461, 466)
 def plan(tier):
     if tier == "quick":
         return [{"mode": "jit", "timeout": 600}] * 3 + [{"mode": "bounds", "timeout": 600}, {"mode": "interp", "timeout": 600}]
-    return [{"mode": "jit", "timeout": 3000}] * 12 + [{"mode": "bounds", "timeout": 3000}] * 2 + [{"mode": "interp", "timeout": 3000}] * 2
+    return ([{"mode": "jit", "timeout": 3000}] * 11 + [{"mode": "bounds", "timeout": 3000}] * 2 + [{"mode": "interp", "timeout": 3000}] * 2
+            + [{"mode": "suite", "timeout": 3300}])
 
 
 def call(pydrex, combo, regime, A, f, L, p, nexp, lam, M, phi):
@@ -203,6 +204,10 @@ def _integration(ctx, pydrex, case):
 
 
 def run(ctx):
+    if ctx.mode == "suite":
+        from .. import suite
+
+        return suite.run_suite_shard(ctx, "C03")
     pydrex = bootstrap.import_pydrex()
     cov = False
     fp = {"divide": 0, "invalid": 0, "over": 0, "under": 0}
